@@ -50,3 +50,10 @@ package grpcv3
 //@   ensures old(r.savedBody) != nil ==> ret0 == old(r.savedBody)
 //@   assert at call Decode#1@6e266fcc.1: len(r.reqRawBody) != 0 ==> callarg1 == r.reqRawBody
 //@   assert at call Decode#1@6e266fcc.1: len(r.reqRawBody) == 0 ==> len(callarg1) == len(r.reqBody)
+
+// C01: "a panic ... the caller receives a non-success response": the handler the gRPC recovery
+// interceptor calls with the panic value always yields an error (codes.Internal), which the gRPC
+// server reports to Envoy instead of a CheckResponse.
+//@ func newService$1
+//@   props C01
+//@   ensures ret0 != nil
